@@ -2,11 +2,11 @@
         r is Ok ==> self.signatures@.len() >= 1,                 // [C04,C01,C02]
         r is Ok ==> r->Ok_0 == self.metadata,                    // [C04,C01,C02]
         r is Ok ==> exists|good: Set<KeyId>| good.len() >= threshold
-            && forall|id: KeyId| good.contains(id) ==> counted_ok(*self, $KEYS, id),   // [C04,C01,C02]
+            && forall|id: KeyId| good.contains(id) ==> counted_ok(*self, $KEYS, id),   // [C04,C01,C02,C12]
         // completeness: when no key id repeats among the keys nor among the signatures, enough good ids guarantee success
         (threshold >= 1 && self.signatures@.len() >= 1 && signed_msg(self.metadata) is Some
             && sig_ids_distinct(self.signatures@) && key_ids_distinct($KEYS)
             && exists|good: Set<KeyId>| good.len() >= threshold && forall|id: KeyId| good.contains(id) ==> counted_ok(*self, $KEYS, id))
             ==> r is Ok,   // [C04,C01,C02]
         // exact: success is a function of the views (later duplicates of a key id win, as in std's collect::<HashMap>)
-        r is Ok <==> verify_ok(*self, threshold, $KEYS),   // [C04,C13,C01,C02]
+        r is Ok <==> verify_ok(*self, threshold, $KEYS),   // [C04,C13,C01,C02,C12]
